@@ -41,9 +41,42 @@ type Case struct {
 	Mode  string     `json:"tx_mode"`
 	Shape []fileSpec `json:"shape"`
 	Point string     `json:"crash_point"` // name:occurrence
+	// Format: "" = an Atlas directory; otherwise the directory is written in another tool's layout and
+	// opened with ?format=<Format> (plain shapes only: directives are an Atlas-format notion).
+	Format string `json:"format,omitempty"`
 }
 
 func sid(f, i int) int { return (f+1)*10 + i + 1 }
+
+// filesFormat renders a plain shape in another tool's directory layout.
+func filesFormat(shape []fileSpec, format string) map[string]string {
+	if format == "" {
+		return files(shape)
+	}
+	out := map[string]string{}
+	for f, fs := range shape {
+		var b strings.Builder
+		for i := 0; i < fs.N; i++ {
+			if f == 0 && i == 0 {
+				b.WriteString("CREATE TABLE IF NOT EXISTS journal (sid integer NOT NULL);\n")
+				continue
+			}
+			fmt.Fprintf(&b, "INSERT INTO journal (sid) VALUES (%d);\n", sid(f, i))
+		}
+		switch format {
+		case "golang-migrate":
+			out[fmt.Sprintf("%d_f.up.sql", f+1)] = b.String()
+			out[fmt.Sprintf("%d_f.down.sql", f+1)] = "DELETE FROM journal;\n"
+		case "goose":
+			out[fmt.Sprintf("%d_f.sql", f+1)] = "-- +goose Up\n" + b.String() + "\n-- +goose Down\nDELETE FROM journal;\n"
+		case "dbmate":
+			out[fmt.Sprintf("%d_f.sql", f+1)] = "-- migrate:up\n" + b.String() + "\n-- migrate:down\nDELETE FROM journal;\n"
+		case "flyway":
+			out[fmt.Sprintf("V%d__f.sql", f+1)] = b.String()
+		}
+	}
+	return out
+}
 
 func files(shape []fileSpec) map[string]string {
 	out := map[string]string{}
@@ -124,22 +157,26 @@ func (s *state) present(f, i int) bool {
 	return s.sids[sid(f, i)] > 0
 }
 
-func apply(w *clih.Work, mode string, env []string) clih.Result {
-	return w.Run(env, "migrate", "apply", "--dir", "file://"+w.Path("migrations"), "--url", w.URL("db.sqlite"), "--tx-mode", mode, "--lock-timeout", "1ms")
+func apply(w *clih.Work, mode, format string, env []string) clih.Result {
+	dir := "file://" + w.Path("migrations")
+	if format != "" {
+		dir += "?format=" + format
+	}
+	return w.Run(env, "migrate", "apply", "--dir", dir, "--url", w.URL("db.sqlite"), "--tx-mode", mode, "--lock-timeout", "1ms")
 }
 
 // Points returns the crash points of the crash-free run of a shape, in order.
-func Points(mode string, shape []fileSpec) ([]string, string) {
+func Points(mode, format string, shape []fileSpec) ([]string, string) {
 	w, err := clih.NewWork()
 	if err != nil {
 		return nil, err.Error()
 	}
 	defer w.Close()
-	if err := w.WriteDir("migrations", files(shape)); err != nil {
+	if err := w.WriteDirFormat("migrations", format, filesFormat(shape, format)); err != nil {
 		return nil, err.Error()
 	}
 	log := w.Path("points.log")
-	res := apply(w, mode, []string{"VERIF_POINT_LOG=" + log})
+	res := apply(w, mode, format, []string{"VERIF_POINT_LOG=" + log})
 	if res.Exit != 0 {
 		return nil, "crash-free run failed: " + res.String()
 	}
@@ -167,11 +204,11 @@ func Eval(c Case) (res Result) {
 		return
 	}
 	defer w.Close()
-	if err := w.WriteDir("migrations", files(c.Shape)); err != nil {
+	if err := w.WriteDirFormat("migrations", c.Format, filesFormat(c.Shape, c.Format)); err != nil {
 		bad("harness: %v", err)
 		return
 	}
-	r1 := apply(w, c.Mode, []string{"VERIF_CRASH_AT=" + c.Point})
+	r1 := apply(w, c.Mode, c.Format, []string{"VERIF_CRASH_AT=" + c.Point})
 	if r1.Exit != 137 {
 		res.Skipped = "crash point not reached: " + r1.String()
 		return
@@ -229,7 +266,7 @@ func Eval(c Case) (res Result) {
 	}
 	// --- the same command again ---
 	w.ClearLocks()
-	r2 := apply(w, c.Mode, nil)
+	r2 := apply(w, c.Mode, c.Format, nil)
 	if r2.Exit != 0 {
 		bad("re-running the command after the crash fails: %s", r2.String())
 		return
@@ -315,9 +352,16 @@ func shapes(tier string) [][]fileSpec {
 	}...)
 }
 
+func formats(tier string) []string {
+	if tier != "thorough" {
+		return []string{"golang-migrate", "goose"}
+	}
+	return []string{"golang-migrate", "goose", "flyway", "dbmate"}
+}
+
 func Run(r *report.Run) {
 	defer clih.Cleanup()
-	r.Rule = "real CLI binary (built with -tags verif) on a real SQLite file: tx-mode {file, all, none} x directory shapes (1-5 files x 1-4 statements, per-file txmode directives (header detached by an empty line, by a line of blanks, or in a file saved with CR LF line endings), checkpoint files incl. two checkpoints with files after the latest; statements INSERT their own id into a journal table) x every crash point reached by the crash-free run of that shape (stmt.before/after, rev.before/after, commit.before/after, commitall.before/after - discovered by a counting run, so complete by construction) ; the process is killed (exit 137, no deferred code) and the same command is run again; states read by our own SQLite connection; non-trivial = case whose crash point was reached; distinct = (mode, shape, point)"
+	r.Rule = "real CLI binary (built with -tags verif) on a real SQLite file: tx-mode {file, all, none} x directory shapes (1-5 files x 1-4 statements, per-file txmode directives (header detached by an empty line, by a line of blanks, or in a file saved with CR LF line endings), checkpoint files incl. two checkpoints with files after the latest; plain shapes also as golang-migrate / goose / flyway / dbmate directories opened with ?format=; statements INSERT their own id into a journal table) x every crash point reached by the crash-free run of that shape (stmt.before/after, rev.before/after, commit.before/after, commitall.before/after - discovered by a counting run, so complete by construction) ; the process is killed (exit 137, no deferred code) and the same command is run again; states read by our own SQLite connection; non-trivial = case whose crash point was reached; distinct = (mode, format, shape, point)"
 	r.Assumptions = []string{
 		"the re-run happens after the advisory lock of the killed process expired (--lock-timeout 1ms and stale lock files removed)",
 		"SQLite's own journal recovery is trusted; the first statement is CREATE TABLE IF NOT EXISTS so that re-executing the in-flight statement in none mode is possible at all",
@@ -326,8 +370,9 @@ func Run(r *report.Run) {
 	var cases []Case
 	var mu sync.Mutex
 	type sm struct {
-		mode  string
-		shape []fileSpec
+		mode   string
+		shape  []fileSpec
+		format string
 	}
 	var sms []sm
 	for _, mode := range []string{"file", "all", "none"} {
@@ -339,21 +384,28 @@ func Run(r *report.Run) {
 				}
 			}
 			if !conflict {
-				sms = append(sms, sm{mode, sh})
+				sms = append(sms, sm{mode, sh, ""})
+			}
+		}
+		// the same guarantee for directories of the other tools' formats (their files are not
+		// *migrate.LocalFile values for the CLI's transaction multiplexer).
+		for _, format := range formats(r.Tier) {
+			for _, sh := range [][]fileSpec{{{N: 3}}, {{N: 2}, {N: 2}}} {
+				sms = append(sms, sm{mode, sh, format})
 			}
 		}
 	}
 	pointsTotal := map[string]int{}
 	enum.Parallel(len(sms), func(i, _ int) {
-		pts, errS := Points(sms[i].mode, sms[i].shape)
+		pts, errS := Points(sms[i].mode, sms[i].format, sms[i].shape)
 		mu.Lock()
 		defer mu.Unlock()
 		if errS != "" {
-			r.Violate("", fmt.Sprintf("mode=%s shape=%v: %s", sms[i].mode, sms[i].shape, errS), Case{sms[i].mode, sms[i].shape, ""})
+			r.Violate("", fmt.Sprintf("mode=%s format=%q shape=%v: %s", sms[i].mode, sms[i].format, sms[i].shape, errS), Case{sms[i].mode, sms[i].shape, "", sms[i].format})
 			return
 		}
 		for _, p := range pts {
-			cases = append(cases, Case{sms[i].mode, sms[i].shape, p})
+			cases = append(cases, Case{sms[i].mode, sms[i].shape, p, sms[i].format})
 			pointsTotal[strings.Split(p, ":")[0]]++
 		}
 	})
@@ -369,10 +421,10 @@ func Run(r *report.Run) {
 		}
 		mu.Unlock()
 		if res.Skipped != "" {
-			r.Violate("", fmt.Sprintf("mode=%s shape=%v point=%s: %s", c.Mode, c.Shape, c.Point, res.Skipped), c)
+			r.Violate("", fmt.Sprintf("mode=%s format=%q shape=%v point=%s: %s", c.Mode, c.Format, c.Shape, c.Point, res.Skipped), c)
 		}
 		if len(res.Problems) > 0 {
-			r.Violate("", fmt.Sprintf("mode=%s shape=%v point=%s: %s", c.Mode, c.Shape, c.Point, strings.Join(res.Problems, " | ")), c)
+			r.Violate("", fmt.Sprintf("mode=%s format=%q shape=%v point=%s: %s", c.Mode, c.Format, c.Shape, c.Point, strings.Join(res.Problems, " | ")), c)
 		}
 		if c.Mode == "none" && c.Point == "stmt.after:3" && len(c.Shape) == 2 {
 			r.Sample(c)
